@@ -14,10 +14,10 @@ SCHEMAS = ["prim_int", "prim_long", "prim_string", "prim_bytes", "prim_double", 
            "enum", "fixed", "rec_flat", "rec_floats", "rec_defaults", "rec_defaults2", "pair_array_int", "pair_map_long",
            "pair_array_record", "pair_map_union", "union_prims", "union_two_recs", "union_named_mix", "union_overlap",
            "pair_field_union", "pair_field_null", "pair_field_fixed", "pair_field_enum", "chain_rec_union_rec_arr",
-           "ref_after_def", "ns_inherit", "rec_list", "union_in_array_named", "rec_dictnull", "enum_default", "rec_enum_default"]
+           "ref_after_def", "ns_inherit", "rec_list", "union_in_array_named", "rec_dictnull", "enum_default", "rec_enum_default", "hint_foreign"]
 QUICK = ["prim_int", "prim_long", "prim_double", "enum", "fixed", "rec_flat", "rec_defaults", "pair_array_int",
          "pair_map_long", "union_named_mix", "union_two_recs", "pair_field_union", "pair_field_null", "rec_list",
-         "pair_array_record", "rec_dictnull", "enum_default", "rec_enum_default"]
+         "pair_array_record", "rec_dictnull", "enum_default", "rec_enum_default", "hint_foreign"]
 
 
 def base_samples(c, seed, n):
@@ -42,6 +42,106 @@ def _datum(c, v, pos, kind, hs=()):
     if mut is not None and not mut.applied:
         raise OutOfDomain()
     return d
+
+
+def reseq(d, sk):
+    """the same datum with every list of plain ints / of anything re-spelled as another kind of non-string sequence:
+    1 array.array('q') (int items that fit), 2 collections.deque, 3 a user-defined Sequence"""
+    import array
+    import collections
+    if isinstance(d, dict):
+        return {k: reseq(x, sk) for k, x in d.items()}
+    if isinstance(d, list):
+        items = [reseq(x, sk) for x in d]
+        if sk == 1:
+            if all(isinstance(x, int) and not isinstance(x, bool) and -(1 << 63) <= x < (1 << 63) for x in items):
+                return array.array("q", items)
+            return items
+        if sk == 2:
+            return collections.deque(items)
+        if sk == 3:
+            return _Seq(items)
+        return items
+    return d
+
+
+class _Seq:
+    """a minimal user-defined sequence (registered with collections.abc.Sequence below)"""
+
+    def __init__(self, items):
+        self._i = list(items)
+
+    def __len__(self):
+        return len(self._i)
+
+    def __getitem__(self, k):
+        return self._i[k]
+
+    def __iter__(self):
+        return iter(self._i)
+
+    def __repr__(self):
+        return f"_Seq({self._i!r})"
+
+
+import collections.abc as _abc
+_abc.Sequence.register(_Seq)
+
+
+def ob_validate_seq(c, v, pos, kind, sk):
+    """validate on data whose arrays are spelled as other kinds of non-string sequences"""
+    if not (0 <= sk <= 3):
+        return True, "out of domain"
+    try:
+        d = reseq(_datum(c, v, pos, kind), sk)
+    except OutOfDomain:
+        return True, "out of domain"
+    want = conform.conforms(c["ir"], d, c["names"])
+    try:
+        got = V.validate(d, c["parsed"], raise_errors=False)
+    except Exception as e:
+        return False, f"validate(raise_errors=False) raised {type(e).__name__}: {e} for {d!r}"
+    if bool(got) != want:
+        return False, f"validate returned {got!r}, conformance is {want} for {d!r}"
+    if want:
+        fo = rt.new_io()
+        try:
+            W.schemaless_writer(fo, c["parsed"], d)
+            rt.rewind(fo)
+            r = R.schemaless_reader(fo, c["parsed"])
+        except Exception as e:
+            return False, f"conforming datum {d!r} not written/read: {type(e).__name__}: {e}"
+    return True, ""
+
+
+def ob_validate_hinted(c, v, hs):
+    """(name, value) / '-type' hints, including hints that name no branch or a type defined elsewhere in the schema:
+    validate == conformance, and the writers agree"""
+    for h in hs:
+        if not (0 <= h <= 4):
+            return True, "out of domain"
+    try:
+        d = _datum(c, v, -1, 0, hs)
+    except OutOfDomain:
+        return True, "out of domain"
+    want = conform.conforms(c["ir"], d, c["names"])
+    try:
+        got = V.validate(d, c["parsed"], raise_errors=False)
+    except Exception as e:
+        return False, f"validate(raise_errors=False) raised {type(e).__name__}: {e} for {d!r}"
+    if bool(got) != want:
+        return False, f"validate returned {got!r}, conformance is {want} for hinted datum {d!r}"
+    fo = rt.new_io()
+    try:
+        W.schemaless_writer(fo, c["parsed"], d)
+        wrote = True
+    except Exception:
+        wrote = False
+    if want and not wrote:
+        return False, f"validate accepts the hinted datum {d!r} but the writer refuses it"
+    if not want and wrote and any(h in (3, 4) for h in hs):
+        return False, f"the writer accepts {d!r} although the hint names no branch of the union"
+    return True, ""
 
 
 def ob_validate(c, v, pos, kind, strict, dtn):
@@ -162,6 +262,19 @@ def harnesses(tier, seed):
         hs.append(Harness(f"writer.mutated.{name}", "props.l10", f"si: int, pos: int, kind: int{dtp}", call + "[0]",
                           replay_call=call, setup=setup, what=f"writer agreement on mutated data of {name}", key=_wkey,
                           samples=[(0, 0, 7) + ((False,) if th else ()), (1, 1, 3) + ((False,) if th else ())]))
+        if name in ("union_named_mix", "union_two_recs", "hint_foreign", "pair_field_union", "union_in_array_named"):
+            call = "ob_validate_hinted(C, v, hs)"
+            hs.append(Harness(f"validate.hinted.{name}", "props.l10", f"v: {a}, hs: Tuple[int, int]", call + "[0]", replay_call=call,
+                              setup=setup, what=f"validate on hinted data of {name}",
+                              samples=[(x, (1, 0)) for x in sv[:1]] + [(x, (4, 0)) for x in sv[1:]]))
+        if name in ("pair_array_int", "pair_array_long", "pair_array_record", "chain_arr_arr"):
+            setup2 = (f"from props.l2 import case\nC = case({name!r}, {th})\n"
+                      f"C = dict(C, cfg=C['cfg'].but(K=2, ints='pool', bytes='pool'))\n"
+                      f"B = ['__samples__'] + base_samples(C, {seed + 3}, 4)")
+            call = "ob_validate_seq(C, (B, si), pos, kind, sk)"
+            hs.append(Harness(f"validate.seqkinds.{name}", "props.l10", "si: int, pos: int, kind: int, sk: int", call + "[0]",
+                              replay_call=call, setup=setup2, what=f"validate on other sequence kinds for {name}",
+                              samples=[(0, -1, 0, 1), (1, 2, 7, 1), (2, 1, 2, 2), (3, -1, 0, 3)]))
         if IR.deref(c["ir"], c["names"])["k"] in ("record", "union", "array", "map"):
             call = "ob_strict(C, (B, si), pos)"
             hs.append(Harness(f"strict.{name}", "props.l10", "si: int, pos: int", call + "[0]", replay_call=call,
